@@ -43,11 +43,70 @@ def run(ctx):
     ctx.guard(leaf_default_condition)
     ctx.guard(rank_shape_covers)
     ctx.guard(unflatten_siblings)
+    ctx.guard(flatten_ids_flat)
 
 
 def _walk(stmts):
     from ..cfg import walk_own
     return walk_own(stmts)
+
+
+# -- R1: the id of a flattened rank is a flat list ------------------------------
+
+def flatten_ids_flat(ctx):
+    """A flattened rank is named by the list of the ids it combines, and the
+    coordinates are flat tuples of the same length.  A rank that is folded in
+    may itself be the result of an earlier flatten (its id is a list): its ids
+    must be spliced into the combined id, a plain id appended.
+    Tensor._flattenRankIdsShape already tests `isinstance(<current id>, list)`
+    -- ids can be lists; the ids of the ranks folded in need the same case
+    split, or a staged flatten reports ['A', ['B', ['C', 'D']]] for
+    coordinates (b, c, d)."""
+    f = ctx.method("Tensor", "_flattenRankIdsShape")
+    rets = pat.returns(f)
+    firsts = {r.value.elts[0].id if isinstance(r.value, ast.Tuple) and r.value.elts and
+              isinstance(r.value.elts[0], ast.Name) else None for r in rets}
+    ids = firsts.pop() if len(firsts) == 1 else None
+    ctx.require(ids, "C14.R1: _flattenRankIdsShape no longer returns (rank_ids, shape)")
+    spliced = appended = None
+    for n in f.own_nodes():
+        if not isinstance(n, ast.If):
+            continue
+        t, pol = n.test, True
+        while isinstance(t, ast.UnaryOp) and isinstance(t.op, ast.Not):
+            t, pol = t.operand, not pol
+        if not (isinstance(t, ast.Call) and text(t.func) == "isinstance" and
+                len(t.args) == 2 and text(t.args[1]) == "list" and
+                isinstance(t.args[0], ast.Name)):
+            continue
+        x = t.args[0].id
+        d = pat.single_def(ctx, f, t.args[0])
+        # the id of a rank *below* the one being built: <ids>[<depth> + k]
+        if not (isinstance(d, ast.Subscript) and text(d.value) == ids and
+                isinstance(d.slice, ast.BinOp) and isinstance(d.slice.op, ast.Add)):
+            continue
+        lst, oth = (n.body, n.orelse) if pol else (n.orelse, n.body)
+        for st in _walk(lst):
+            if isinstance(st, ast.AugAssign) and isinstance(st.op, ast.Add) and \
+                    text(st.value) == x and text(st.target).startswith(ids + "["):
+                spliced = st
+            if isinstance(st, ast.Call) and isinstance(st.func, ast.Attribute) and \
+                    st.func.attr == "extend" and [text(a) for a in st.args] == [x]:
+                spliced = st
+        for st in _walk(oth):
+            if isinstance(st, ast.Call) and isinstance(st.func, ast.Attribute) and \
+                    st.func.attr == "append" and [text(a) for a in st.args] == [x]:
+                appended = st
+    if spliced is not None and appended is not None:
+        ctx.ok("C14.R1", f, spliced, "a folded-in list id is spliced, a plain id appended",
+               text_="flatten ids stay flat")
+    else:
+        ctx.bad("C14.R1", f, rets[0], "Tensor._flattenRankIdsShape no longer "
+                "splices the id of a folded-in rank that is itself a list (and "
+                "appends a plain one): flattening an already flattened rank "
+                "reports a nested id such as ['B', ['C', 'D']] for flat "
+                "coordinates (b, c, d), and the combined rank can no longer "
+                "be addressed by its flat id", text_="flatten ids stay flat")
 
 
 # -- R1: an unflatten peels the shape exactly like the rank ids -----------------
